@@ -74,6 +74,8 @@ type loopInfo struct {
 	cutPC    Term
 	phiVals  map[*ssa.Phi]Term
 	frameEqs []Term
+	stable   map[string]bool // field components assumed unwritten by the loop (validated)
+	fullComps []compRef      // components the loop havocs entirely (get an automatic frame invariant)
 }
 
 type nameBinding struct {
@@ -99,6 +101,7 @@ type Frame struct {
 	callStack []*ssa.Function
 	inLoopOf  map[*ssa.BasicBlock][]*loopInfo
 	closures  map[string]*closureInfo
+	frameMS   *modSet // targets of the function's modifies clause (top frame only)
 }
 
 const maxInlineDepth = 4
@@ -164,9 +167,28 @@ func (f *Frame) rpo() []*ssa.BasicBlock {
 	seen := map[*ssa.BasicBlock]bool{}
 	var post []*ssa.BasicBlock
 	var dfs func(b *ssa.BasicBlock)
+	// innermost loop of a block = the smallest natural loop containing it
+	innermost := func(b *ssa.BasicBlock) *loopInfo {
+		var best *loopInfo
+		for _, li := range f.inLoopOf[b] {
+			if best == nil || len(li.blocks) < len(best.blocks) {
+				best = li
+			}
+		}
+		return best
+	}
 	dfs = func(b *ssa.BasicBlock) {
 		seen[b] = true
-		for _, s := range b.Succs {
+		// visit loop-exit successors first so that, in reverse post-order, the whole
+		// loop body precedes the code after the loop (keeps VCs of loop obligations
+		// free of assumptions about later code)
+		succs := append([]*ssa.BasicBlock{}, b.Succs...)
+		if li := innermost(b); li != nil {
+			sort.SliceStable(succs, func(i, j int) bool {
+				return !li.blocks[succs[i]] && li.blocks[succs[j]]
+			})
+		}
+		for _, s := range succs {
 			if f.back[[2]int{b.Index, s.Index}] || seen[s] {
 				continue
 			}
@@ -596,6 +618,15 @@ func (f *Frame) cutLoop(li *loopInfo, st State) State {
 	// 2. havoc what the loop modifies
 	li.preHeap = st.Heap
 	heap := f.havocLoop(li, st)
+	// automatic frame invariant for components the loop havocs entirely
+	for _, c := range li.fullComps {
+		if t, ok := f.frameFormula(c, st.Heap); ok {
+			vc.Oblige(f.label, "inv-init", fmt.Sprintf("%d.frame.%s", li.ordinal, c.name), st.PC, t, "automatic loop frame for "+c.name)
+		}
+		if t, ok := f.frameFormula(c, heap); ok {
+			vc.Assume(Implies(st.PC, t))
+		}
+	}
 	li.phiVals = map[*ssa.Phi]Term{}
 	for _, ins := range h.Instrs {
 		phi, ok := ins.(*ssa.Phi)
@@ -651,6 +682,11 @@ func (f *Frame) backEdge(li *loopInfo, from *ssa.BasicBlock, st State) {
 			break
 		}
 		override[phi] = f.val(phi.Edges[predIndex(h, from)])
+	}
+	for _, c := range li.fullComps {
+		if t, ok := f.frameFormula(c, st.Heap); ok {
+			vc.Oblige(f.label, "inv-keep", fmt.Sprintf("%d.frame.%s", li.ordinal, c.name), st.PC, t, "automatic loop frame for "+c.name)
+		}
 	}
 	if li.spec == nil {
 		return
